@@ -607,6 +607,9 @@ def guarded_run(rig, st, seconds=3):
         rig.drivers.run()
     except Alarm:
         st.crash = 'Alarm'
+    except BaseException as e:
+        # not even drivers.run() held it back: the main loop of the bot would end here
+        st.crash = 'out of drivers.run(): ' + type(e).__name__
     finally:
         signal.alarm(0)
     if st.crash == 'Alarm':
